@@ -256,7 +256,7 @@ pub fn run(ctx: Ctx) -> ! {
     if let Some(case) = ctx.read_replay_case() {
         replay(ctx, case);
     }
-    let plan: Vec<(bool, usize, &str)> = if ctx.quick() { vec![(false, 4, "core")] } else { vec![(false, 7, "core"), (true, 5, "all-updates")] };
+    let plan: Vec<(bool, usize, &str)> = if ctx.quick() { vec![(false, 4, "core")] } else { vec![(false, 7, "core"), (true, 4, "all-updates")] };
     let mut table = vec![];
     let mut offsets = vec![];
     for (full, _, _) in &plan {
